@@ -354,7 +354,13 @@ def w_tags(arg):
     rng = np.random.default_rng(seed * 79 + sum(map(ord, cid)))
     d, e = build(cid, tier, seed)
     di = OnsagerCalc.Interstitial(d.crys, d.chem, d.sitelist, d.om0_jn)
-    for calc, kinds in ((di, ('states', 'transitions')), (d, d.__taglist__)):
+    try:
+        dl = h5_roundtrip(d)       # tag input on a calculator restored from a file names the same classes
+    except Exception as ex:
+        dl = None; acc.check(False, 'reloaded-calculator-for-tag-input', '%s: %s' % (type(ex).__name__, str(ex)[:200]))
+    for calc, kinds in ((di, ('states', 'transitions')), (d, d.__taglist__)) + (((dl, d.__taglist__),) if dl is not None else ()):
+        if calc is dl:
+            acc.check(dl.tags == d.tags and dl.tagdict == d.tagdict and dl.tagdicttype == d.tagdicttype, 'reloaded-tag-tables-identical', '', sig='reload')
         alltags = [t for k in kinds for cls in calc.tags[k] for t in cls]
         acc.check(len(alltags) == len(set(alltags)), 'tags-unique', type(calc).__name__, sig=('uniq', type(calc).__name__))
         ok = all(calc.tagdict[t] == i and calc.tagdicttype[t] == k for k in kinds for i, cls in enumerate(calc.tags[k]) for t in cls) and set(calc.tagdict) == set(alltags)
@@ -454,6 +460,12 @@ def w_tags(arg):
         ok = all(((k, i) in given) or (thermo[names[k][0]][i] == lim[names[k][0]][i] and thermo[names[k][1]][i] == lim[names[k][1]][i]) for (k, i) in classes if k in ('omega1', 'omega2'))
         acc.check(ok, 'missing-transition-data-back-filled-by-the-default', mode, sig=(mode, 'limb', trial))
         acc.check(all(np.array_equal(thermo[k_], thermo2[k_]) for k_ in thermo2), 'verbose-flag-does-not-change-the-data', mode)
+        if dl is not None and trial < 5:
+            try:
+                thermo3 = dl.tags2preene(user)
+                acc.check(set(thermo3) == set(thermo2) and all(np.array_equal(thermo3[k_], thermo2[k_]) for k_ in thermo2), 'reloaded-calculator-reads-the-same-tag-input', mode, sig=(mode, 'reload'))
+            except Exception as ex:
+                acc.check(False, 'reloaded-calculator-reads-the-same-tag-input', '%s: %s: %s' % (mode, type(ex).__name__, str(ex)[:200]))
         want_missing = {k: [d.tags[k][i] for (kk, i) in classes if kk == k and (kk, i) not in given] for k in d.__taglist__}
         want_missing = {k: v for k, v in want_missing.items() if v}
         got_missing = {k: sorted(map(tuple, v)) for k, v in missing.items()}
